@@ -9,6 +9,7 @@ import (
 	"path/filepath"
 	"strings"
 	"sync/atomic"
+	"syscall"
 
 	oci "github.com/opencontainers/runtime-spec/specs-go"
 	"tags.cncf.io/container-device-interface/pkg/cdi"
@@ -160,8 +161,11 @@ func appendEdits(dst *specs.ContainerEdits, e specs.ContainerEdits) {
 type env struct {
 	cs     []Content
 	caches []*cdi.Cache
-	dirs   [][]string
-	shapes map[string]func() *oci.Spec
+	// degraded: per content, a cache in automatic-refresh mode whose watcher could not be created
+	// (descriptor shortage while it was set up): every call on it rescans the directories first
+	degraded []*cdi.Cache
+	dirs     [][]string
+	shapes   map[string]func() *oci.Spec
 }
 
 var failures atomic.Int64
@@ -243,6 +247,16 @@ func (v *env) eval1(c Case) hx.Result {
 		if ok, where := refmodel.OCIEqual(want, got); !ok {
 			// order-sensitive comparison is intended for mounts, hooks and cgroup rules; env/devices/gids compare by key
 			return fail("composition-differs:"+where+":"+shapeOf(c), "injection result differs from applying the combined edit list, in "+where, refmodel.Normalise(want), refmodel.Normalise(got))
+		}
+		// the same request through the cache that rescans before every lookup: same result
+		if len(c.Request) <= 3 {
+			dg := v.shapes[c.OCI]()
+			if u3, err3 := v.degraded[c.contentI].InjectDevices(dg, c.Request...); err3 != nil || len(u3) != 0 {
+				return fail("injection-fails-on-cache-without-watcher", fmt.Sprintf("the request failed on an auto-refresh cache whose watcher could not be created: %v %v", u3, err3), nil, fmt.Sprint(err3))
+			}
+			if ok, where := refmodel.OCIEqual(want, dg); !ok {
+				return fail("composition-differs-on-cache-without-watcher:"+where+":"+shapeOf(c), "on an auto-refresh cache whose watcher could not be created (it rescans on every call) the result differs from the combined edit list, in "+where, refmodel.Normalise(want), refmodel.Normalise(dg))
+			}
 		}
 		// "exactly as applying one combined edit list": the expected value was produced by one real
 		// Apply of the combined list, so the two OCI specs must also be identical member by member,
@@ -332,6 +346,15 @@ func main() {
 		}
 		v.caches = append(v.caches, cache)
 		v.dirs = append(v.dirs, []string{filepath.Join(dir, "d0"), filepath.Join(dir, "d1")})
+		// still single-threaded here: no descriptor can be opened while this cache is created
+		var lim, zero syscall.Rlimit
+		_ = syscall.Getrlimit(syscall.RLIMIT_NOFILE, &lim)
+		zero = lim
+		zero.Cur = 0
+		_ = syscall.Setrlimit(syscall.RLIMIT_NOFILE, &zero)
+		dc, _ := cdi.NewCache(cdi.WithSpecDirs(filepath.Join(dir, "d0"), filepath.Join(dir, "d1")), cdi.WithAutoRefresh(true))
+		_ = syscall.Setrlimit(syscall.RLIMIT_NOFILE, &lim)
+		v.degraded = append(v.degraded, dc)
 	}
 	if r.Replay != "" {
 		var c Case
